@@ -388,7 +388,7 @@ def rpartsModel (connTopic : String) (args : List String) (m : KV.Routing.MRespo
   match KV.Mappings.readPartitions connTopic answer with
   | .error e => s!"err {e}"
   | .ok ps => dash (",".intercalate (strSort (ps.map fun p =>
-      s!"{p.topic}/{p.id}={p.leader.id}={showIds p.replicas}={showIds p.isr}")))
+      s!"{p.topic}/{p.id}={p.leader.id}={showIds p.replicas}={showIds p.isr}={p.error}")))
 
 /-- reference: the first asked topic carrying an error that concerns this connection decides; otherwise every
 partition of every asked topic with the cluster's leader / replicas / ISR -/
@@ -412,7 +412,7 @@ def rpartsRef (connTopic : String) (topics : String) (cluster : String) : Option
           match t.splitOn ":" with
           | [_, _, _, parts] => (splitD parts ",").filterMap fun p =>
               match p.splitOn "=" with
-              | [i, l, _, r, isr] => some s!"{n}/{i}={l}={r}={isr}"
+              | [i, l, pe, r, isr] => some s!"{n}/{i}={l}={r}={isr}={pe}"
               | _ => none
           | _ => []
         | none => []
